@@ -9,7 +9,7 @@ import TrompModel.Model.Ring
 namespace Tromp.Cxx
 
 /-- `list<T, Disposer>::iterator::operator++` — translated from include/trompeloeil/mock.hpp:1508 -/
-def ring_iter_incr (p0 : Ring.Ptr) (h : Ring.Heap) : Ring.Ptr := Id.run do
+def ring_iter_incr (p0 : Ring.Ptr) (h : Ring.Heap Ring.Ptr) : Ring.Ptr := Id.run do
   let mut p := p0
   p := (h.next p)
   return p
